@@ -700,8 +700,93 @@ class Ms5:
         return "read_ms5_xsf"
 
 
+# =====================================================================================
+class Pbp:
+    """chiral condensate files of input.misc.read_pbp: header nrw, nfct[nrw], nsrc[nrw]; per configuration the number and,
+    per factor and Hasenbusch level, two blocks of nsrc doubles of which the second is used (plain source average,
+    product over the levels).  The reader has no configuration-number support: samples are labelled 1..n in file
+    order, so the stub writes consecutive configurations starting at 1 and the calls use r_stop only (with r_start the
+    reader relabels the kept samples from 1 - outside the formats C17 lists, noted in DESIGN 6.5)."""
+    rep_names = staticmethod(_bin_rep_names)
+    name = "pbp"
+
+    def gen(self, rng, small=False):
+        nrw = rng.randint(1, 3)
+        p = {"kind": "pbp", "version": "1.6", "nrw": nrw, "nfct": [rng.randint(1, 3) for _ in range(nrw)], "nsrc": [rng.randint(1, 3) for _ in range(nrw)],
+             "ens": rng.choice(ENS_IDS), "data_seed": rng.getrandbits(32), "reps": gen_reps(rng, small)}
+        for rp in p["reps"]:
+            rp["first"], rp["spacing"] = 1, 1
+            rp["file"] = "%sr%d.pbp.dat" % (p["ens"], rp["k"])
+        p["distractors"] = rng.random() < 0.5
+        p["calls"] = [self.gen_call(rng, p) for _ in range(rng.randint(1, 3))]
+        return p
+
+    def gen_call(self, rng, p):
+        c = {"perm_seed": rng.getrandbits(30) if rng.random() < 0.85 else None}
+        order = sorted_reps(p["reps"])
+        sel = rng.choice(["none", "none", "stop", "stop", "start1", "short"])
+        c["sel"] = sel
+        if sel in ("stop", "start1"):
+            c["r_stop"] = [rng.randint(5, p["reps"][i]["nrec"]) for i in order]
+        if sel == "start1":
+            c["r_start"] = [rng.choice([0, 1]) for i in order]       # 0 / 1: from the first configuration
+        if sel == "short":
+            c["r_stop"] = [rng.randint(5, p["reps"][i]["nrec"]) for i in order][:-1] + ([7, 7] if rng.random() < 0.5 else [])
+        return c
+
+    def images(self, p):
+        out = []
+        for i in range(len(p["reps"])):
+            img, model = formats.write_rwms(p, i)
+            out.append((img, i, model))
+        return out
+
+    def extra_files(self, p):
+        if p.get("distractors"):
+            return {p["reps"][0]["file"][:-4] + ".txt": b"\x00" * 7, "sub/" + p["reps"][0]["file"]: b"junk", "ZZ" + p["reps"][0]["file"]: b"\x01\x00\x00"}
+        return {}
+
+    def expect(self, p, models, nrecs, call):
+        order = sorted_reps(p["reps"], call)
+        for key in ("r_start", "r_stop"):
+            if key in call and len(call[key]) != len(order):
+                return None
+        names, cfgs, vals = [], [], [[] for _ in range(p["nrw"])]
+        for pos, i in enumerate(order):
+            recs = models[i][:nrecs[i]]
+            if nrecs[i] < 0:
+                return None
+            stop = (call.get("r_stop") or [None] * len(order))[pos]
+            keep = recs[:stop] if stop is not None else recs
+            if len(keep) < 5:
+                return None
+            cfgs.append(list(range(1, len(keep) + 1)))
+            names.append("%s|r%d" % (p["ens"], p["reps"][i]["k"]))
+            for t in range(p["nrw"]):
+                v = []
+                for r in keep:
+                    f = 1.0
+                    for row in r["lnr"][t]:
+                        f *= float(np.mean(np.asarray(row)))
+                    v.append(f)
+                vals[t].append(v)
+        return {"pbp%d" % t: ospec_from(names, cfgs, vals[t]) for t in range(p["nrw"])}
+
+    def invoke(self, p, d, call):
+        import contextlib
+        import io
+        import pyerrors as pe
+        kw = {k: list(call[k]) for k in ("r_start", "r_stop") if k in call}
+        with contextlib.redirect_stdout(io.StringIO()):
+            res = pe.input.misc.read_pbp(d, p["ens"], **kw)
+        return {"pbp%d" % t: o for t, o in enumerate(res)}
+
+    def component(self, p, call):
+        return "read_pbp"
+
+
 KINDS = {}
-for _k in (Rwms(), Ms(), Gfms(), Ms5()):
+for _k in (Rwms(), Ms(), Gfms(), Ms5(), Pbp()):
     KINDS[_k.name] = _k
 
 
